@@ -33,8 +33,8 @@ Proof. unfold gen_chan_writable. pred_tac. Qed.
    poll turn), so the interface is: does handle_write flush at all *)
 Definition flushes (k : flush_kind) : bool := match k with FlushNone => false | _ => true end.
 
-Lemma gen_hw_flush_spec : forall n tot sb,
-  flushes (gen_hw_flush n tot sb) = ((n =? 0) || (sb <=? tot)).
+Lemma gen_hw_flush_spec : forall n tot sb hw,
+  flushes (gen_hw_flush n tot sb hw) = ((n =? 0) || (sb <=? tot) || (hw <? tot)).
 Proof. unfold gen_hw_flush, flushes. pred_tac. Qed.
 
 Lemma gen_hw_after_spec : forall cwf wc tot,
@@ -192,7 +192,7 @@ Lemma set_flags_id : forall c, set_wc (set_cwf c (c_cwf c)) (c_wc c) = c.
 Proof. destruct c; reflexivity. Qed.
 
 Definition hw_flushes (p : params) (c : chan) : bool :=
-  (len_requests c =? 0) || (p_send_bytes p <=? c_pend c).
+  (len_requests c =? 0) || (p_send_bytes p <=? c_pend c) || (p_high_watermark p <? c_pend c).
 
 Lemma handle_write_spec : forall p now c,
   handle_write p now c =
@@ -207,7 +207,7 @@ Proof.
                          = if c_cwf c1 && (c_pend c1 =? 0) then None else if c_wc c1 then None else Some c1).
   { intros c1. rewrite gen_hw_after_spec. destruct (c_cwf c1 && (c_pend c1 =? 0)); [reflexivity|].
     destruct (c_wc c1) eqn:E; [reflexivity|]. rewrite <- E. rewrite set_flags_id. reflexivity. }
-  destruct (gen_hw_flush (len_requests c) (c_pend c) (p_send_bytes p)); cbn [flushes];
+  destruct (gen_hw_flush (len_requests c) (c_pend c) (p_send_bytes p) (p_high_watermark p)); cbn [flushes];
     try (destruct (flush_some true now c); [apply T|reflexivity]).
   apply T.
 Qed.
